@@ -9,6 +9,7 @@
 //!   col <hex .col> <off,len;..> <patch> <seq..>         -> one outcome per `g`
 //!   idx <hex .idx> <patch>                              -> ok:<count> | err:<class>
 //! patch : flip:<pos>:<bit> | set:<pos>:<byte> | trunc:<newlen> | ck0:<block> (checksum type := None)
+//!         | settype:<block>:<t> (block type word := t; every other decodable type is swept)
 //!         | zero12:<block>:<pos>:<byte> (checksum type and checksum := 0, payload byte := <byte>)
 //!         | none
 //!         idx only: cnt:<n> (footer block count := n) | zero12i:<pos>:<byte>
@@ -57,6 +58,12 @@ pub fn apply_patch(bytes: &mut Vec<u8>, patch: &str, entries: &[(usize, usize)])
             for i in off + len - 12..off + len { bytes[i] = 0; }
             let p: usize = t[2].parse().unwrap();
             bytes[off + p] = t[3].parse().unwrap();
+        }
+        "settype" => {
+            // block type word (4 bytes BE, first word of the trailer) := t
+            let (off, len) = entries[t[1].parse::<usize>().unwrap()];
+            let v: u32 = t[2].parse().unwrap();
+            bytes[off + len - 16..off + len - 12].copy_from_slice(&v.to_be_bytes());
         }
         "cnt" => {
             let n = bytes.len();
@@ -121,6 +128,8 @@ fn gen(n_cols: usize, out: &str) {
             for d in [16usize, 13, 12, 9, 8, 1] { patches.push((format!("flip:{}:{}", off + l - d, r.below(8)), b)); }
             patches.push((format!("ck0:{b}"), b));
             patches.push((format!("zero12:{b}:{}:{}", r.below((l - 16).max(1) as u64), r.below(256)), b));
+            let orig_ty = u32::from_be_bytes(built.data[off + l - 16..off + l - 12].try_into().unwrap());
+            for ty in 0..=19u32 { if ty != orig_ty { patches.push((format!("settype:{b}:{ty}"), b)); } }
             patches.push((format!("set:{}:2", off + l - 9), b)); // checksum type := invalid enum value
             patches.push((format!("set:{}:77", off + l - 13), b)); // block type := invalid enum value
         }
@@ -309,6 +318,9 @@ fn disk(work: &str, n_cases: usize) {
         }
     }
     files.sort();
+    if let Outcome::Ok(rows) = &want_t {
+        println!("{{\"want_t\":\"{}\"}}", render_rows(rows.clone(), false));
+    }
     // layout of every file for the model (entries of .col files come from the real index reader)
     for (name, bytes) in &files {
         if name.ends_with(".idx") {
@@ -336,6 +348,18 @@ fn disk(work: &str, n_cases: usize) {
             plan.push((fi, "cnt:99".into()));
             plan.push((fi, format!("zero12i:{}:{}", r.below((len - 24) as u64), r.below(256))));
         } else {
+            {
+                let idxname = name.replace(".col", ".idx");
+                let ib = &files.iter().find(|(n, _)| *n == idxname).unwrap().1;
+                let ents: Vec<(usize, usize)> = hk::VerifColumn::open(vec![], ib, DataType::Int32, None).unwrap().index_entries().iter().map(|e| (e.offset as usize, e.length as usize)).collect();
+                let mut bs = vec![0usize, ents.len() - 1];
+                bs.dedup();
+                for b in bs {
+                    let (off, l) = ents[b];
+                    let orig_ty = u32::from_be_bytes(bytes[off + l - 16..off + l - 12].try_into().unwrap());
+                    for ty in 0..=18u32 { if ty != orig_ty { plan.push((fi, format!("settype:{b}:{ty}"))); } }
+                }
+            }
             plan.push((fi, "ck0:0".into()));
             plan.push((fi, format!("zero12:0:{}:{}", r.below(4), 65)));
             plan.push((fi, format!("zero12:1:{}:{}", r.below(4), 66)));
@@ -354,6 +378,9 @@ fn disk(work: &str, n_cases: usize) {
     }
     let scratch = std::path::Path::new(work).join("c18-case");
     for (fi, patch) in chosen {
+        // a panic of the harness itself in one case must not end the sweep
+        let label = format!("{}|{}", files[fi].0, patch);
+        let case_result = catch(|| {
         let (name, bytes) = &files[fi];
         let _ = std::fs::remove_dir_all(&scratch);
         copy_dir(&base, &scratch);
@@ -383,7 +410,7 @@ fn disk(work: &str, n_cases: usize) {
         }
         if aborted {
             println!("{{\"file\":\"{}\",\"patch\":\"{}\",\"res\":\"open:abort\"}}", name, patch);
-            continue;
+            return;
         }
         match catch(|| rt.block_on(Database::new_on_disk(options(&scratch)))) {
             Err(_) => res.push("open:panic".into()),
@@ -405,6 +432,11 @@ fn disk(work: &str, n_cases: usize) {
             }
         }
         println!("{{\"file\":\"{}\",\"patch\":\"{}\",\"res\":\"{}\"}}", name, patch, res.join(" "));
+        });
+        if let Err(m) = case_result {
+            let (f, p) = label.split_once('|').unwrap();
+            println!("{{\"file\":\"{}\",\"patch\":\"{}\",\"res\":\"harness-panic:{}\"}}", f, p, m.replace('"', "'").replace('\n', " ").chars().take(200).collect::<String>());
+        }
     }
     let _ = std::fs::remove_dir_all(&scratch);
     let _ = std::fs::remove_dir_all(&base);
